@@ -180,6 +180,16 @@ Proof.
 Qed.
 End OneD.
 
+Lemma par_len {T} (O : ops T) :
+  (forall (s e : T) n, par1d_len n = length (seq1d O s e n)) /\
+  (forall x0 x1 nx y0 y1 ny, par2d_len (fst (fst (root2d nx ny))) (snd (fst (root2d nx ny))) (fst (snd (root2d nx ny))) (snd (snd (root2d nx ny)))
+                             = length (seq2d O x0 x1 nx y0 y1 ny)).
+Proof.
+  split.
+  - intros s e n. rewrite seq1d_length. reflexivity.
+  - intros. rewrite seq2d_length. unfold root2d, it2d_new, par2d_len. cbn [fst snd]. lia.
+Qed.
+
 (* the usize arithmetic of ParIterator1D::split_at: index 0 evaluates `index - 1` (overflow: panic in debug builds) *)
 Lemma split1d_zero {T} (O : ops T) p : p_split (prod1d O) p 0 = Panic.
 Proof. destruct p as [[s e] n]. reflexivity. Qed.
